@@ -17,9 +17,13 @@
    Deviation flags (FALSE in the design; TRUE only in the negative controls):
      BugAddMiddle  - Dev_CacheAddMiddle (SyncCacheOps.AddDev),
      BugTxLoopVar  - Dev_TxsLoopVar: the per-transaction goroutines of handleTxsMsg share the loop variable,
-                     so all of them may add the LAST transaction of the batch. *)
+                     so all of them may add the LAST transaction of the batch,
+     BugConfirmRace - Dev_ConfirmLostDuringInsert: a confirm that arrives while the engine is busy inserting its block
+                     (after mergeConfirmsFromCache popped the early confirms, before the chain has the block) is pushed
+                     into the confirm cache, where nothing ever looks for it again.
+   Races = TRUE adds the action RaceInsert (that interleaving); with FALSE every message is handled on its own. *)
 EXTENDS SyncCacheOps, TLC
-CONSTANTS NB, Confs, NT, MaxDup, BugAddMiddle, BugTxLoopVar
+CONSTANTS NB, Confs, NT, MaxDup, Races, BugAddMiddle, BugTxLoopVar, BugConfirmRace
 
 ND == 3
 Quorum == 2
@@ -56,16 +60,18 @@ Init == /\ inflight = [m \in Msgs |-> 1] /\ dups = 0
 ClearedSlots(s, st, st2) == IF st2 # st THEN ClearUpTo(s, st2) ELSE s
 ClearedConfs(cc, st, st2) == IF st2 # st THEN [m \in CMsgs |-> IF m[2] <= st2 THEN 0 ELSE cc[m]] ELSE cc
 
-\* the engine accepts block h (not yet in the chain, parent known); early confirms are merged from the cache
-InsertInto(h, s) ==
-    LET early == {m[3] : m \in {x \in CMsgs : x[2] = h /\ ccache[x] > 0}}
+\* the engine accepts block h (not yet in the chain, parent known); early confirms are merged from the confirm cache cc;
+\* `late` = confirms pushed into the cache after the merge (BugConfirmRace only)
+InsertWith(h, s, cc, late) ==
+    LET early == {m[3] : m \in {x \in CMsgs : x[2] = h /\ cc[x] > 0}}
         st2 == IF Enough(early, h) THEN h ELSE stable
-        cc1 == [m \in CMsgs |-> IF m[2] = h THEN 0 ELSE ccache[m]]
+        cc1 == [m \in CMsgs |-> (IF m[2] = h THEN 0 ELSE cc[m]) + (IF m \in late THEN 1 ELSE 0)]
     IN /\ has' = has \cup {h}
        /\ sigs' = [sigs EXCEPT ![h] = early]
        /\ stable' = st2
        /\ slots' = ClearedSlots(s, stable, st2)
        /\ ccache' = ClearedConfs(cc1, stable, st2)
+InsertInto(h, s) == InsertWith(h, s, ccache, {})
 
 Take(m) == inflight[m] > 0 /\ inflight' = [inflight EXCEPT ![m] = @ - 1] /\ UNCHANGED dups
 
@@ -94,6 +100,18 @@ Deliver(m) == /\ m \in Msgs
                  \/ m[1] = "C" /\ DeliverConfirm(m[2], m[3])
                  \/ m[1] = "T" /\ DeliverTxs
 
+\* Block h is handed to the engine (parent known, nothing cached for it to wait) and, while the engine is busy with it,
+\* deputy d's confirm for h arrives.  Whatever the interleaving, the outcome must be that of handling the two messages
+\* one after the other - both orders give the same: h is in the chain and carries d's confirm.
+RaceInsert(h, d) ==
+    /\ Races /\ h \in 1..NB /\ <<"C", h, d>> \in CMsgs
+    /\ inflight[<<"B", h, 0>>] > 0 /\ inflight[<<"C", h, d>>] > 0
+    /\ inflight' = [inflight EXCEPT ![<<"B", h, 0>>] = @ - 1, ![<<"C", h, d>>] = @ - 1] /\ UNCHANGED dups
+    /\ h > stable /\ h \notin has /\ Known(h - 1) /\ Bid(h) \notin Content(slots)
+    /\ seenB' = seenB \cup {h} /\ seenC' = seenC \cup {<<h, d>>} /\ UNCHANGED <<pool, seenT>>
+    /\ IF BugConfirmRace THEN InsertWith(h, slots, ccache, {<<"C", h, d>>})
+                          ELSE InsertWith(h, slots, BagAdd(ccache, <<"C", h, d>>), {})
+
 Duplicate(m) == /\ m \in Msgs /\ inflight[m] > 0 /\ dups < MaxDup
                 /\ inflight' = [inflight EXCEPT ![m] = @ + 1] /\ dups' = dups + 1
                 /\ UNCHANGED <<has, sigs, stable, slots, ccache, pool, seenB, seenC, seenT>>
@@ -109,6 +127,7 @@ TimerDrain ==
     /\ UNCHANGED <<inflight, dups, pool, seenB, seenC, seenT>>
 
 Next == (\E m \in Msgs : Deliver(m)) \/ (\E m \in Msgs : Duplicate(m)) \/ TimerDrain
+        \/ (\E h \in 1..NB, d \in 1..ND : RaceInsert(h, d))
 Spec == Init /\ [][Next]_vars
 
 (* ------------------------------------------------------------------ C20 *)
